@@ -25,3 +25,12 @@ package contexttags
 //@   ensures !typeis(payload, *errorspb.TagsPayload) ==> result == nil
 //@   ensures result != nil ==> typeis(result, *withContext) && result.(*withContext).cause == cause && result.(*withContext).redactedTags == redactedTags
 //@   loop 1: invariant b != nil
+
+//@ method (*withContext).SafeDetails
+//@   props C11 C12 C03
+//@   ensures self.redactedTags != nil ==> result == self.redactedTags
+
+//@ func redactTags
+//@   props C05 C03 C12
+//@   requires b != nil
+//@   ensures len(result) == len(tagsOf(b))
